@@ -1,39 +1,6 @@
 ---------------------------- MODULE MC_Process ----------------------------
-(* Bounded instances of Process and behaviour emission.                             *)
-(* The two models and the two blocks are the ones harness/checks/c17.py builds:     *)
-(*   SIM  sfc_models.gl_book.chapter3.SIM('C')  (constructor makes model+country)   *)
-(*   TWO  a two-sector model whose sectors ask for each other's variable names      *)
-(*        before main(), so the placeholders `_<ID>__P`, `_<ID>__Q` are embedded    *)
-(*   A    block without user function, B block that calls the user function f       *)
-EXTENDS Process, Json
-
-MC_Models  == {"SIM", "TWO"}
-MC_Blocks  == {"A", "B"}
-MC_Solvers1 == {"s1"}
-MC_Solvers2 == {"s1", "s2"}
-MC_LogNames == {"log", "eqn", "timeseries", "step", "steadystate_0"}
-MC_Trace2 == {0, 1}
-MC_Trace3 == {0, 1, 3}
-
-MC_Shape ==
-    [SIM |-> [newIds |-> 3, declPre |-> 0, horizon |-> 2,
-              sectors |-> << "C_GOV", "C_HH", "C_BUS", "C_TF", "C_LAB", "C_GOOD" >>,   \* one country: full code = sector code
-              asks |-> {},
-              own |-> {"BUS__DEM_LAB", "BUS__F", "BUS__INC", "BUS__LAG_F", "BUS__PROF", "BUS__SUP_GOOD",
-                       "GOOD__DEM_GOOD", "GOOD__SUP_BUS", "GOOD__SUP_GOOD", "GOV__DEM_GOOD", "GOV__F",
-                       "GOV__FISC_BAL", "GOV__INC", "GOV__LAG_F", "GOV__PRIM_BAL", "GOV__T", "HH__AfterTax",
-                       "HH__AlphaFin", "HH__AlphaIncome", "HH__DEM_GOOD", "HH__F", "HH__INC", "HH__LAG_F",
-                       "HH__SUP_LAB", "HH__T", "LAB__DEM_LAB", "LAB__SUP_HH", "LAB__SUP_LAB", "TF__T",
-                       "TF__TaxRate", "t"}],
-     TWO |-> [newIds |-> 1, declPre |-> 2, horizon |-> 6,
-              sectors |-> << "AA", "BB" >>,
-              asks |-> { << 1, "P" >>, << 2, "Q" >> },
-              own |-> {"AA__F", "AA__INC", "AA__LAG_F", "AA__LAG_P", "AA__P", "AA__S", "AA__Z",
-                       "BB__F", "BB__INC", "BB__LAG_F", "BB__Q", "BB__R", "t"}]]
-
-MC_BlockInfo ==
-    [A |-> [vars |-> {"LAG_x", "a", "g", "t", "x", "y"}, early |-> {"g"}, func |-> FALSE, horizon |-> 4],
-     B |-> [vars |-> {"LAG_u", "h", "t", "u", "v", "w"}, early |-> {"h"}, func |-> TRUE,  horizon |-> 4]]
+(* Bounded instances of Process and behaviour emission.                     *)
+EXTENDS Process, ProcessConsts, Json
 
 (* every maximal behaviour that computes at least one result is printed once *)
 Produces(h) == \E i \in 1..Len(h) : h[i].a \in {"Main", "Solve", "SolveAgain"}
